@@ -1379,8 +1379,294 @@ class TOEntry(EPBase):
         return [f"to.constraint={base['constraint']}", f"to.groups={len({r[0] for r in base['rows']})}", f"to.gnames={base['gnames']}"]
 
 
+# ===================================================================== entry point: reductions with control features
+class RedCFEntry(EPBase):
+    """ExponentiatedGradient / GridSearch fitted with `control_features=` (accepted by the parity moments' load_data) and
+    asked to predict on a SECOND, separately indexed feature matrix.  No model / oracle of its own: every variant must
+    reproduce the plain-list run exactly (multipliers, the rows the base learner saw, the predictors, the selection,
+    the predictions) -- a label-based join anywhere on the path shows up as a difference, since lists carry no labels."""
+    name = "redcf"
+    modes = ("container",)
+
+    def gen_base(self, rng, flavor=None):
+        while True:
+            n = rng.choice([6, 7, 8, 9, 10, 12])
+            k = rng.choice([2, 3, 3])
+            x = [rng.randrange(k) for _ in range(n)]
+            y = [rng.randint(0, 1) for _ in range(n)]
+            g = [rng.choice("ab") for _ in range(n)]
+            c = [rng.choice(["u", "v"]) for _ in range(n)]
+            cells = {(gi, ci) for gi, ci in zip(g, c)}
+            if len(set(y)) < 2 or len(set(x)) < 2 or len(cells) < 4:
+                continue
+            return {"x": x, "y": y, "g": g, "c": c, "algo": rng.choice(["gs", "gs", "eg"]),
+                    "moment": rng.choice(["DP", "TPR", "EO", "ERP"]), "px": [rng.randrange(k) for _ in range(rng.choice([3, 5]))],
+                    "lkind": rng.choice(["all", "threshold"])}
+
+    def argdom(self, base):
+        c = ["list", "nd", "nd2", "ser", "df"]
+        return {"X": ["nd", "df"], "y": c, "sf": c, "cf": c, "pX": ["nd", "df"]}
+
+    def baseline(self, base):
+        return {"X": sp("nd"), "y": sp("list"), "sf": sp("list"), "cf": sp("list"), "pX": sp("nd")}
+
+    def run(self, base, var):
+        import fairlearn.reductions as red
+        tag = f"c12cf-{os.getpid()}-{next(_COUNTER)}"
+        try:
+            X = xmat(base["x"], var["X"])
+            pX = xmat(base["px"], var["pX"])
+            mom = getattr(red, c06mod.MOMENTS[RED_MOMENTS[base["moment"]]])(difference_bound=0.05)
+            kw = dict(sensitive_features=vec(base["g"], var["sf"], "sf"), control_features=vec(base["c"], var["cf"], "cf"))
+            if base["algo"] == "gs":
+                est = red.GridSearch(RecLearner(base["lkind"], tag, "nd"), mom, grid_size=5, grid_limit=2.0)
+            else:
+                est = red.ExponentiatedGradient(RecLearner(base["lkind"], tag, "nd"), constraints=mom, eps=0.05, max_iter=4,
+                                                nu=1e-6, eta0=2.0)
+            est.fit(X, vec(base["y"], var["y"], "y"), **kw)
+            lam = est.lambda_vecs_
+            out = {"lam_index": [[str(v) for v in (t if isinstance(t, tuple) else (t,))] for t in lam.index],
+                   "lam": [[float(v) for v in lam[c].tolist()] for c in lam.columns],
+                   "train": [[int(v) for v in np.asarray(p.predict(X)).reshape(-1)] for p in est.predictors_],
+                   "records": [{"x": r.get("x"), "y": [int(v) for v in r["y"]], "w": [float(v) for v in r["w"]]}
+                               for r in RECORDS.pop(tag, [])]}
+            if base["algo"] == "gs":
+                out["best_idx"] = int(est.best_idx_)
+                out["predict"] = [int(v) for v in np.asarray(est.predict(pX)).reshape(-1)]
+            else:
+                out["weights"] = [float(v) for v in est.weights_]
+                out["pmf1"] = [float(v) for v in np.asarray(est._pmf_predict(pX))[:, 1]]
+            return out
+        except Exception as e:  # noqa: BLE001
+            RECORDS.pop(tag, None)
+            return exc_token(e)
+
+    def plan(self, base, out):
+        return []
+
+    def judge(self, base, out, model):
+        probs = []
+        xs = [float(v) for v in base["x"]]
+        for r in out.get("records", []):
+            if r.get("x") != xs:
+                probs.append(Problem("property", f"the base learner was fitted on feature rows {r.get('x')} instead of {xs}",
+                                     "C12.red.learner_rows"))
+                break
+        return probs
+
+    def expected_rejection(self, base, out0):
+        return out0.get("exc") == "ValueError" and "at least one non-zero" in out0.get("msg", "")
+
+    def shrink(self, base):
+        n = len(base["y"])
+        for i in range(n):
+            b = dict(base)
+            for k in ("x", "y", "g", "c"):
+                b[k] = base[k][:i] + base[k][i + 1:]
+            if len(set(b["y"])) == 2 and len(set(b["x"])) >= 2 and len({(a, c_) for a, c_ in zip(b["g"], b["c"])}) == 4:
+                yield b
+
+    def tags(self, base):
+        return [f"redcf.algo={base['algo']}", f"redcf.moment={base['moment']}"]
+
+
+# ===================================================================== entry point: the conversion glue itself
+# The functions through which fairlearn turns user containers into positional data, run DIRECTLY on the containers
+# and compared with (a) the Lean container model (`Model/Container.lean`, op `cont.place`) driven by the conversion
+# classes LIFTED from the source for these very sites (`Generated/ContainerSites.lean`), (b) the positional oracle.
+CONV_CODE = {"asarray": 0, "values": 1, "listOf": 2, "resetIndex": 3, "fresh": 4, "kind": 5, "raw": 6}
+KIND_CODE = {"list": 0, "nd": 1, "nd2": 1, "ser": 2, "ser_nn": 2, "df": 3, "df0": 3, "dict": 4}
+GUARD_OF = {"list": "list", "nd": "np.ndarray", "nd2": "np.ndarray", "ser": "pd.Series", "ser_nn": "pd.Series",
+            "df": "pd.DataFrame", "df0": "pd.DataFrame"}
+_SITES = {}
+
+
+def lifted_sites():
+    """[(entry, arg, sink, conv)] as lifted from the tree under test (None when the lifter refuses)"""
+    if "v" not in _SITES:
+        from .. import core, translate
+        try:
+            _SITES["v"] = [tuple(r) for r in translate.run(core.REPO)["ContainerSites.lean"]["sites"]]
+        except (translate.Untranslatable, KeyError):
+            _SITES["v"] = None
+    return _SITES["v"]
+
+
+def sites_clean():
+    st = lifted_sites()
+    return st is not None and all(r[3] != "raw" for r in st)
+
+
+def conv_for(entry, arg, guard=None):
+    """conversion class of one argument of one lifted site (worst class when several sinks match)"""
+    st = lifted_sites() or []
+    hits = [r[3] for r in st if r[0] == entry and (arg is None or r[1].split(" [")[0].split("+")[0] == arg)
+            and (guard is None or f":{guard}]" in r[1])]
+    if guard == "list":
+        hits = [h for h in hits if h != "listOf"] or hits       # the map(..) sink is the list-of-lists branch
+    if not hits:
+        return None
+    return "raw" if "raw" in hits else hits[0]
+
+
+def label_codes(spec, n):
+    """index labels of a pandas container as integers (string labels are coded as negative numbers: never 0..n-1)"""
+    if spec["c"] not in PANDAS:
+        return []
+    idx = mk_index(spec.get("i", "default"), n, spec.get("s", 0))
+    if idx is None:
+        return list(range(n))
+    return [v if isinstance(v, int) else -(int(v[1:]) + 1) for v in idx]
+
+
+def col_out(values):
+    out = []
+    for v in list(values):
+        try:
+            fv = float(v)
+        except (TypeError, ValueError):
+            out.append(str(v))
+            continue
+        out.append("nan" if fv != fv else fv)
+    return out
+
+
+class VarTok(str):
+    """the variant a ContEntry output was produced with (JSON text); compares equal to any other VarTok so that the
+    variant-vs-baseline comparison ignores it"""
+
+    def __eq__(self, other):
+        return isinstance(other, str)
+
+    def __ne__(self, other):
+        return not self.__eq__(other)
+
+    __hash__ = str.__hash__
+
+
+class ContEntry(EPBase):
+    name = "cont"
+    modes = ("container",)
+    ARGS_VAL = (("y", "y"), ("sf", "sensitive_features"), ("cf", "control_features"))
+    ARGS_THR = ("sf", "sc", "y")
+
+    def gen_base(self, rng, flavor=None):
+        n = rng.choice([2, 3, 4, 5, 6, 8])
+        return {"y": [rng.randint(0, 1) for _ in range(n)], "sf": [rng.randrange(3) for _ in range(n)],
+                "cf": [10 + rng.randrange(2) for _ in range(n)],
+                "sc": [str(F(rng.randrange(17), 16)) for _ in range(n)]}
+
+    def argdom(self, base):
+        c = ["list", "nd", "nd2", "ser", "df"]
+        return {"X": ["nd", "df"], "y": c, "sf": c, "cf": c, "sc": c}
+
+    def baseline(self, base):
+        return {"X": sp("nd"), "y": sp("list"), "sf": sp("list"), "cf": sp("list"), "sc": sp("list")}
+
+    def payload(self, base, a):
+        return [F(v) for v in base[a]]
+
+    def run(self, base, var):
+        from fairlearn.postprocessing import _threshold_optimizer as tomod
+        from fairlearn.utils._input_validation import _validate_and_reformat_input
+        n = len(base["y"])
+        out = {"_var": VarTok(json.dumps(var, sort_keys=True))}
+        try:
+            X = xmat([F(v) for v in base["sc"]], var["X"])
+            y = vec(base["y"], var["y"], "y")
+            sf = vec(base["sf"], var["sf"], "sf")
+            cf = vec(base["cf"], var["cf"], "cf")
+            sc = vec([float(F(v)) for v in base["sc"]], var["sc"], "sc")
+        except Exception as e:  # noqa: BLE001
+            return {"crash_build": repr(e)[:200]}
+        try:
+            _, ry, rsf, rcf = _validate_and_reformat_input(X, y, sensitive_features=sf, control_features=cf)
+            out["val"] = {"cols": [col_out(ry), col_out(rsf), col_out(rcf)],
+                          "fresh": [bool(isinstance(r, pd.Series) and list(r.index) == list(range(n))) for r in (ry, rsf, rcf)]}
+        except Exception as e:  # noqa: BLE001
+            out["val"] = exc_token(e)
+        try:
+            fr_ = tomod._reformat_and_group_data(sf, y, sc).obj
+            out["thr"] = {"cols": [col_out(fr_[tomod.SENSITIVE_FEATURE_KEY]), col_out(fr_[tomod.SCORE_KEY]),
+                                   col_out(fr_[tomod.LABEL_KEY])], "rows": int(len(fr_))}
+        except Exception as e:  # noqa: BLE001
+            out["thr"] = exc_token(e)
+        return out
+
+    def _convs(self, var):
+        val = [conv_for("_validate_and_reformat_input", a2) for _, a2 in self.ARGS_VAL]
+        thr = [conv_for("ThresholdOptimizer._reformat_data_into_dict", None, GUARD_OF[var[a]["c"]])
+               for a in self.ARGS_THR]
+        return val, thr
+
+    def plan(self, base, out):
+        if "_var" not in out:
+            return []
+        var = json.loads(out["_var"])
+        n = len(base["y"])
+        val, thr = self._convs(var)
+        lines = []
+        for tag, convs, args in (("cont.val", val, [a for a, _ in self.ARGS_VAL]), ("cont.thr", thr, list(self.ARGS_THR))):
+            if any(c is None for c in convs):
+                continue
+            lines.append((tag, f"cont.place {n} {proto.lst([CONV_CODE[c] for c in convs])} "
+                               f"{proto.lst([KIND_CODE[var[a]['c']] for a in args])} "
+                               f"{';'.join(proto.lst(label_codes(var[a], n)) for a in args)} "
+                               f"{proto.mat([self.payload(base, a) for a in args])}"))
+        return lines
+
+    @staticmethod
+    def _parse(tok):
+        if tok.startswith("err") or tok == "bad-op":
+            return tok
+        return [["nan" if t == "nan" else float(proto.p_rat(t)) for t in (c.split(",") if c != "-" else [])] for c in tok.split(";")]
+
+    def judge(self, base, out, model):
+        probs = []
+        var = json.loads(out["_var"]) if "_var" in out else {}
+        specs = (("val", "cont.val", [a for a, _ in self.ARGS_VAL], "_validate_and_reformat_input"),
+                 ("thr", "cont.thr", list(self.ARGS_THR), "_reformat_and_group_data"))
+        for key, tag, args, fn in specs:
+            want = [[float(v) for v in self.payload(base, a)] for a in args]
+            got = out.get(key, {})
+            desc = " ".join(f"{a}={var[a]['c']}/{var[a].get('i', 'default')}" for a in args if a in var)
+            if "exc" in got:
+                probs.append(Problem("property", f"{fn} raised {got['exc']} ({got.get('msg', '')[:80]}) on accepted containers "
+                                                 f"[{desc}]", f"C12.containers_irrelevant ({fn})"))
+                bad = True
+            else:
+                bad = got["cols"] != want
+                if bad:
+                    probs.append(Problem("property", f"{fn} [{desc}] returns columns {got['cols']} but the payloads BY POSITION are "
+                                                     f"{want}: rows were paired by index label", f"C12.positional_pairing ({fn})"))
+                if key == "val" and not all(got["fresh"]):
+                    probs.append(Problem("property", f"{fn} [{desc}] returned a Series whose index is not RangeIndex: {got['fresh']}",
+                                         "C12.validate_fresh"))
+            if model is not None and tag in model:
+                m = self._parse(model[tag])
+                if m != want:
+                    probs.append(Problem("harness" if sites_clean() else "correspondence",
+                                         f"container model for {fn} [{desc}] gives {m}, positional payloads {want}",
+                                         "C12.lifted_sites_drop_labels / positional_pairing"))
+                if not bad and "cols" in got and m != got["cols"]:
+                    probs.append(Problem("correspondence", f"{fn} [{desc}] differs from the container model {m}", "C12.cont.place"))
+        if lifted_sites() is None:
+            probs.append(Problem("correspondence", "the container-site lifter refuses the tree under test",
+                                 "C12.lifted_sites_drop_labels"))
+        return probs
+
+    def shrink(self, base):
+        n = len(base["y"])
+        for i in range(n):
+            if n > 2:
+                yield {k: v[:i] + v[i + 1:] for k, v in base.items()}
+
+    def tags(self, base):
+        return ["cont.sites=" + ("clean" if sites_clean() else "raw-or-refused")]
+
+
 # ===================================================================== the check
-EPS = {e.name: e for e in (MFEntry(), FMEntry(), MomEntry(), EGEntry(), GSEntry(), TOEntry())}
+EPS = {e.name: e for e in (MFEntry(), FMEntry(), MomEntry(), EGEntry(), GSEntry(), TOEntry(), ContEntry(), RedCFEntry())}
 _BASE_CACHE = {}
 
 
@@ -1412,17 +1698,24 @@ def series_pred_finding(case):
 class CHECK(Check):
     pid = "C12"
     technique = ("Lean 4 theorems (permutation / relabelling invariance of the MetricFrame, aggregate, fairness-metric and "
-                 "moment models) + compiled-driver correspondence of every entry point under all accepted container types "
-                 "and pandas index labels against the model evaluated on the positional zip")
+                 "moment models; a container model -- kind, index labels, payload, conversion, label-aligning placement -- whose "
+                 "conversion class per argument is lifted from the source on every run) + compiled-driver correspondence of "
+                 "every entry point and of the conversion glue itself under all accepted container types and pandas index "
+                 "labels against the model evaluated on the positional zip")
     level_text = ("PARTIAL BY NATURE. Theorems (all row lists, no size bound) cover the model half: by_group/overall are equal "
                   "tables for permuted rows for every permutation-invariant metric (proved for the whole metric pool; the index "
                   "and the slices' row multisets unconditionally); group_min/max/difference/ratio and the six named fairness "
                   "metrics are permutation invariant; Moment.index and gamma are invariant under a JOINT permutation of rows and "
                   "predictions, signed_weights travel with their rows; ErrorRate / BoundedGroupLoss likewise; a column-wise "
                   "injective relabelling renames exactly the index entries (Perm of the entry lists, arbitrary metric) and leaves "
-                  "all aggregates and fairness metrics unchanged when control labels are kept. Container types and pandas index "
-                  "labels do NOT exist in the model (it takes the positional zip as a List Row): that half of the property is "
-                  "covered by the correspondence check only — MetricFrame, the 6 fairness metrics, 5 parity moments + ErrorRate + "
+                  "all aggregates and fairness metrics unchanged when control labels are kept. Containers and index labels: "
+                  "Model/Container.lean + Generated/ContainerSites.lean (40 (entry point, argument, sink) sites with the "
+                  "conversion each argument passes through before a label-aligning pandas operation); containers_irrelevant: if "
+                  "every argument passes a label-dropping conversion the frame, hence any result, depends on the payloads only, "
+                  "for all kinds and labels; positional_pairing; lifted_sites_drop_labels (decide over the generated table; "
+                  "fails naming the site when an argument reaches a frame raw); raw_series_is_label_sensitive (necessity). "
+                  "Still correspondence-only: that the listed sites are ALL the paths (intra-procedural lifter) and pandas' "
+                  "reindexing itself — MetricFrame, the 6 fairness metrics, 5 parity moments + ErrorRate + "
                   "BoundedGroupLoss, ExponentiatedGradient, GridSearch, ThresholdOptimizer (fit and predict) under "
                   "list/ndarray/(n,1) ndarray/Series/DataFrame/dict containers with default, shuffled, offset, duplicated and "
                   "string index labels, compared with the list baseline, the compiled model and a Fraction oracle on the "
@@ -1464,7 +1757,7 @@ class CHECK(Check):
                    "every group has both labels for ThresholdOptimizer and GridSearch")
 
     # ---------------------------------------------------------------- generation
-    NBASES = {"mf": 4, "fm": 5, "mom": 6, "eg": 4, "gs": 4, "to": 5}
+    NBASES = {"mf": 4, "fm": 5, "mom": 6, "eg": 4, "gs": 4, "to": 5, "cont": 3, "redcf": 3}
 
     def _cases_for(self, rng, ep, tier, flavor=None, nperm=2, nrel=2):
         """one pairwise-covering array of (container, index kind) per call, its rows dealt out over several base datasets
@@ -1514,6 +1807,8 @@ class CHECK(Check):
                     cs = self._cases_for(rng, ep, tier, flavor)
                     if ep.name in ("eg", "gs") and tier == "quick":
                         cs = rng.sample(cs, min(len(cs), 36))
+                    if ep.name == "redcf" and tier == "quick":
+                        cs = rng.sample(cs, min(len(cs), 16))
                     chunk.append(cs)
             # interleave so that a truncated run still covers every entry point
             while any(chunk):
@@ -1524,7 +1819,7 @@ class CHECK(Check):
 
     def exhaustive(self, tier):
         rng = random.Random(12)
-        for name in ("fm", "eg", "gs", "mom"):
+        for name in ("cont", "fm", "eg", "gs", "mom"):
             ep = EPS[name]
             reps = 8 if name == "mom" else 1
             for _ in range(reps):
